@@ -357,8 +357,9 @@ class AsyncWorld(World):
     mode = 'async'
 
     def __init__(self, seed=0, choices_replay=None, msgpack=False,
-                 lat=(0.0,), bp=(0.0,)):
+                 lat=(0.0,), bp=(0.0,), send_pauses=None):
         self._common_init(seed, choices_replay, msgpack)
+        self.send_pauses = tuple(send_pauses) if send_pauses else None
         reset_process_globals()
         self.loop = SimLoop()
         self.rec = Recorder(self.loop.time)
@@ -395,6 +396,20 @@ class AsyncWorld(World):
         if manager is not None:
             cfg['client_manager'] = manager
         srv = (server_cls or _SimAsyncServer)(**cfg)
+        if self.send_pauses:
+            # buggify: the boundary socketio -> engine.io is a suspension
+            # point of seeded length (a coroutine may always suspend;
+            # back-pressure).  Mostly zero.
+            for meth in ('send', 'send_packet'):
+                orig = getattr(srv.eio, meth)
+
+                async def boundary(*a, _orig=orig, **kw):
+                    d = self.choices.pick('sched', self.send_pauses, 'sendp')
+                    if d:
+                        self.rec.count('net.send_suspended')
+                        await asyncio.sleep(d)
+                    return await _orig(*a, **kw)
+                setattr(srv.eio, meth, boundary)
         self.servers[name] = srv
         self.register_acceptor(name, srv)
         return srv
@@ -798,6 +813,8 @@ class ThreadWorld(World):
 
 
 def make_world(mode, **kw):
+    if mode != 'async':
+        kw.pop('send_pauses', None)
     if mode == 'async':
         kw.pop('policy', None)
         kw.pop('pct_depth', None)
